@@ -131,6 +131,10 @@ func runUptracePrep(args []string) int {
 				if e.Ev == "truncate" || (e.Off == 11 && e.Len == 16 && last["kind"] != "truncate") {
 					start = true
 				}
+				// ... and ends with a truncation at the last complete section: same session
+				if e.Ev == "truncate" && last["call"] == "reopen" && last["kind"] == "write" && last["off"] == int64(27) {
+					start = false
+				}
 			}
 			if start {
 				flush(s)
@@ -148,6 +152,12 @@ func runUptracePrep(args []string) int {
 				default:
 					s.v1 = call == "put" // a resumed CARv1 session issues no write before its first Put
 				}
+			}
+			// a session that began with a truncation is a resumed one; whether CARv1 or CARv2 shows in its second
+			// event: a CARv2 resumption goes on to zero the header, a CARv1 one has nothing more to do before a Put
+			if s.n == 1 && s.lines[0]["kind"] == "truncate" && !(e.Ev == "write" && e.Off == 11 && e.Len == 16) && e.Ev != "truncate" {
+				s.v1 = true
+				s.lines[0]["v1"] = true
 			}
 			if call != "open" {
 				s.bs = true
